@@ -775,3 +775,43 @@ def c15_engine(prop, tier, replay, t0):
 
 
 ENGINES['C15'] = c15_engine
+
+
+def c06_engine(prop, tier, replay, t0):
+    vlib.build_harness()
+    verdicts, st, g, res, trace, nrows = table_run('Tab_C06', 'panictab', harness_args=['-nested', '6000' if tier == 'thorough' else '400', '-seed', str(vlib.seed())])
+    # every traced execution of the traversal engine is also run under recover(): random abstract cases through map and JSON front ends
+    d = vlib.scratch('c06.')
+    tr2 = os.path.join(d, 'exec.ndjson')
+    st2 = vlib.harness(['exec', '-plan', 'random:%d,tags:%d,frontends:%d' % ((6000, 3000, 1500) if tier == 'thorough' else (500, 300, 150)), '-seed', str(vlib.seed()), '-out', tr2])
+    v2, tv2 = vlib.validate_traces('Trace_Exec', tr2, vlib.exec_consts(soft='any'))
+    mine2 = [v for v in v2 if v['prop'] == 'C06']
+    rc2 = 0
+    if mine2:
+        os.makedirs(vlib.REPLAY, exist_ok=True)
+        seen = set()
+        for v in mine2:
+            if v['id'] in seen or len(seen) >= 5:
+                continue
+            seen.add(v['id'])
+            path = '%s/C06-%s.ndjson' % (vlib.REPLAY, v['id'].replace('/', '_'))
+            with open(path, 'w') as f:
+                f.writelines(vlib.extract_trace(tr2, v['id']))
+            print('VIOLATION property=C06 replay=%s' % path)
+            log('  verdict: panic: %s' % json.dumps(v['detail'])[:400])
+        rc2 = 1
+    rc = report_table(prop, tier, t0, ['C06'], verdicts, st, g, res, trace, nrows, 'Tab_C06',
+                      'rows = input kind (57 lattice points: nil / typed nil, every string-keyed map element kind, named maps and keys, non-string keys, structs with exported / unexported / embedded fields, pointer chains, '
+                      'NaN / Inf, invalid UTF-8, long strings, arrays, slices, chan, func, json.Number, JSON documents incl. {} [] scalars null truncated, forms, query, env) x schema kind (13, incl. a 48-byte field name) x position '
+                      '(root, field, element, behind pointer); every row run under recover(); plus seeded nestings of lattice points to depth 3; plus every random traced execution; distinct = table rows',
+                      ['panic freedom over all Go types cannot be enumerated: the lattice is closed under reflect.Kind, not under user-defined methods', 'misconfiguration (schema/destination mismatch) is outside the property and not generated'],
+                      replay=bool(replay), known=vlib.load_known())
+    ev = json.load(open('%s/C06.json' % vlib.EVID))
+    ev['coverage']['traced_executions_under_recover'] = dict(traces=st2['traces'], cases=st2['cases'])
+    ev['coverage']['traces_validated_against_impl'] += st2['traces']
+    ev['violations'] += len(mine2)
+    json.dump(ev, open('%s/C06.json' % vlib.EVID, 'w'), indent=1, sort_keys=True)
+    return 1 if (rc or rc2) else 0
+
+
+ENGINES['C06'] = c06_engine
